@@ -185,15 +185,63 @@ def run_native_shards(binname, prop, tier, seed, budget, extra_args=None, nshard
     with ThreadPoolExecutor(max_workers=nshards) as ex:
         results = list(ex.map(lambda c: run_proc(c, None, wd), cmds))
     reports, problems = [], []
+    crashed = []
     for i, r in enumerate(results):
         rep = parse_report(r["out"])
         if r["timeout"]:
             problems.append("shard %d: watchdog fired after %.0f s" % (i, r["dt"]))
+        elif rep is None and crash_signal(r) is not None:
+            crashed.append((i, r))
         elif rep is None:
             problems.append("shard %d: no report (rc=%s) stderr tail: %s" % (i, r["rc"], r["err"][-600:]))
         if rep is not None:
             reports.append(rep)
+    if crashed:
+        # the process died from a memory-error signal: not a harness failure (the harness has no unsafe
+        # code apart from the counting allocator's forwarding calls) but memory corruption in the code
+        # under test. The first crashed shards are run again announcing every case, which names the case.
+        for i, r in crashed[:2]:
+            what = crash_signal(r)
+            r2 = run_proc(cmds[i], {"VERIF_TRACE_CASES": "1"}, wd)
+            last = None
+            for line in r2["err"].splitlines():
+                if line.startswith("VERIF-CASE "):
+                    last = int(line.split()[1])
+            again = crash_signal(r2)
+            if again is None or last is None:
+                problems.append("shard %d died from %s; the traced re-run did not (rc=%s)" % (i, what, r2["rc"]))
+                continue
+            reports.append({"violations": [{
+                "property": prop, "sig": "crash-" + again.split()[0].lower(),
+                "what": "the shard process died from %s while running case %d (again in a second run: %s); stderr: %s" % (
+                    what, last, again, r2["err"][-300:].replace("VERIF-CASE", "case")),
+                "replay": {"property": prop, "tier": tier, "seed": seed, "shard": i, "nshards": nshards, "index": last,
+                           "extra_args": extra_args or [], "crash": True}}],
+                "n_violations": 1, "maps": {"violation_signatures": {"crash-" + again.split()[0].lower(): 1}}})
+        for i, r in crashed[2:]:
+            problems.append("shard %d: died from %s (see the crash violation of the first shards)" % (i, crash_signal(r)))
     return reports, problems
+
+
+HEAP_MSGS = ("corrupted", "double free", "malloc():", "free():", "munmap_chunk", "invalid pointer", "invalid size",
+             "stack smashing", "malloc_consolidate", "realloc():")
+
+
+def crash_signal(r):
+    """names the memory-error signal a process died from, or None (out-of-memory aborts, kills and harness exits are None)"""
+    rc = r.get("rc")
+    if rc is None:
+        return None
+    names = {-11: "SIGSEGV", -7: "SIGBUS", -4: "SIGILL"}
+    if rc in names:
+        return names[rc] + " (rc=%d)" % rc
+    if rc == -6:
+        tail = r.get("err", "")[-2000:]
+        if "memory allocation of" in tail:
+            return None  # allocation failure: inconclusive
+        if any(m in tail for m in HEAP_MSGS):
+            return "SIGABRT after a heap-corruption report of the allocator (%s)" % next(m for m in HEAP_MSGS if m in tail)
+    return None
 
 
 # --------------------------------------------------------------------------- known findings
@@ -524,7 +572,13 @@ def replay_case(prop, r, cfg):
         return 1
     exe = os.path.join(HARNESS, "target", "release", cfg["bin"])
     cmd = [exe, prop, "--tier", r.get("tier", "quick"), "--seed", str(r.get("seed", 1)),
-           "--shard", "%d/%d" % (r.get("shard", 0), r.get("nshards", 1)), "--only", str(r.get("index", 0)), "--verbose"]
+           "--shard", "%d/%d" % (r.get("shard", 0), r.get("nshards", 1))]
+    if r.get("crash"):
+        # memory corruption shows when the allocator next looks at the damaged block, which can be in a
+        # later case than the one that did the damage: replay the shard from its first case up to the fatal one
+        cmd += ["--cases", str(r.get("index", 0) + 1), "--budget-s", "100000"]
+    else:
+        cmd += ["--only", str(r.get("index", 0)), "--verbose"]
     cmd += r.get("extra_args", [])
     if cfg["bin"] == "par":
         # the scenario is reproduced exactly, the OS schedule is not: repeat it
@@ -532,6 +586,9 @@ def replay_case(prop, r, cfg):
     p = run_proc(cmd, None, 900)
     rep = parse_report(p["out"])
     sys.stderr.write(p["err"][-6000:])
+    if rep is None and crash_signal(p) is not None:
+        print("REPRODUCED crash: the process died from %s" % crash_signal(p))
+        return 1
     if rep is None:
         print("INCONCLUSIVE property=%s reason=replay produced no report" % prop)
         return 2
